@@ -25,27 +25,37 @@ CHECKS = {
             "the aggregate of exactly the sub-stream routed to it (the rows of that bin / flow / "
             "threshold / selection, with the weight the node gives them); at the exact instance the "
             "closed forms of Count, Sum, Average and Deviate on finite data (sum of weights, weighted "
-            "sum, entries*mean = sum w*q, varianceTimesEntries = sum w*q^2 - entries*mean^2), order "
+            "sum, entries*mean = sum w*q, varianceTimesEntries = sum w*q^2 - entries*mean^2), the extrema "
+            "of Minimize / Maximize over any quantities incl. +-inf and NaN (not above/below any non-NaN "
+            "quantity, one of the quantities, NaN only if nothing else was filled), the value -> weight "
+            "map of a Bag of numbers (NaN under 'nan'), every sparse child (SparselyBin index, Categorize "
+            "category) = the template filled with exactly the rows routed to its key (every instance), order "
             "independence of fill, the weight gate and its meaning; the independent exact-rational "
             "reference semantics (harness/refsem.py) is evaluated against the implementation on "
             "every exact program; " + TIE,
-            "extrema, the value map of Bag and the sparse children are decided by the reference "
-            "semantics (a Python transcription of the specification), not proved; exact laws decided "
-            "on exact-safe programs only",
+            "the value map of string- and vector-valued Bags is decided by the reference semantics (a "
+            "Python transcription of the specification), not proved; the closed forms are stated for "
+            "finite data and positive weights (extrema and Bag: any quantities); exact laws decided on "
+            "exact-safe programs only",
             "section 6 C02"),
     "C03": ("proof",
             "the model of fill.numpy(columns, weights) is the property's right-hand side (the rows "
             "filled one by one with their weights); Coq theorems about it for every arithmetic "
             "instance: every split of a batch into successive calls gives the same aggregate and "
             "outcome, rows of weight zero do not count, and (exact instance) a batch is the aggregate "
-            "of the batch alone merged into the accumulator; " + TIE + ": a vectorised instance (dict "
+            "of the batch alone merged into the accumulator; the column decomposition the kernels "
+            "implement (fill of a node with a batch = fill of every fixed / sparse child with the "
+            "sub-column of the rows routed to it) is the row semantics, and the batch formulas of "
+            "Average._numpy / Deviate._numpy (weighted mean of the selection merged by the "
+            "weighted-average and parallel-axis formulas) give exactly the state the row fills reach "
+            "(exact instance); " + TIE + ": a vectorised instance (dict "
             "of arrays or record array) and a row-by-row instance of the same tree are driven through "
             "the same batches (0-10 rows over the tree's critical values, weight 1 / scalar / "
             "non-negative array with zeros) and compared with each other and with the model after "
             "every batch, up to empty sparse bins; the input arrays are compared with copies",
-            "partial: the numpy kernels (masks, bincount, np.unique, batch mean/variance formulas) "
-            "are not modelled, so 'kernel = row semantics' is decided by differential checking, not "
-            "by a theorem; bit-for-bit only where the arithmetic is exact, otherwise to 1e-9; "
+            "partial: the numpy kernels themselves (masks, bincount, np.unique, np.histogram fast paths) "
+            "are not modelled, so 'kernel = row semantics' is decided by differential checking (with a "
+            "stratum for the Count-valued fast paths under every weight mode), not by a theorem; bit-for-bit only where the arithmetic is exact, otherwise to 1e-9; "
             "Average/Deviate on well-conditioned data only; tuple-of-arrays input and negative "
             "weights are outside the claim",
             "section 6 C03"),
@@ -53,13 +63,22 @@ CHECKS = {
             "Coq theorems: toJson is strict JSON for every tree and every arithmetic instance; "
             "fromJson(toJson(leaf)) is the immutable leaf with the same numbers and the inherited "
             "name for Count/Sum/Average/Deviate/Minimize/Maximize (exact instance, both name "
-            "positions), Deviate's variance/vte conversion loses nothing; " + TIE + ": the model's "
+            "positions), Deviate's variance/vte conversion loses nothing; for every tree of every shape "
+            "and depth the reader accepts (predicate jwf: the shape the constructors produce, sparse maps "
+            "sorted with integer / string keys, Bag keys agreeing with the declared range) "
+            "Factory.fromJson(toJson(h)) succeeds, yields the tree reload(h) given in closed form (names "
+            "inherited through values:name / bins:name / sub:name) and that tree writes the IDENTICAL "
+            "document (exact instance; int(str(z)) = z for the sparse keys via the standard library's "
+            "decimal printer); " + TIE + ": the model's "
             "toJson document is compared token by token with the implementation's, the model's "
             "fromJson result with the implementation's reload, and fixpoint / interchangeability "
             "under +, *, zero, copy are evaluated on the implementation's documents",
-            "partial: the round trip of the container primitives and the algebra on the reload are "
-            "decided by the document correspondence and the oracle on generated trees, not by a Coq "
-            "theorem; via-string / via-file loading is exercised on the implementation only",
+            "partial: equality of the reload with the original's content and the algebra (+, *, zero, "
+            "copy) on the reload are decided by the document correspondence and the oracle on generated "
+            "trees, not by a Coq theorem (exactly on exact-safe programs, to 1e-9 otherwise: a reloaded "
+            "Deviate went through variance = vte/entries); the two clauses of jwf a reachable tree can "
+            "violate are the two known findings (Coq witness C04_empty_sparse_name_refuted); via-string "
+            "/ via-file loading is exercised on the implementation only",
             "section 6 C04"),
     "C05": ("proof",
             "Coq theorems (exact instance): the bookkeeping invariant holds at zero and is "
@@ -182,19 +201,28 @@ CHECKS = {
             "Coq theorems about the reader model for EVERY document and every arithmetic instance: "
             "an accepted document has exactly the header keys, an accepted version and a registered "
             "type; a non-object document or fragment, an unknown type name anywhere, a missing "
-            "required key or an extra key in the fragment of any primitive are rejected; " + TIE +
+            "required key or an extra key in the fragment of any primitive, a negative or non-numeric "
+            "'entries' in the fragment of any primitive are rejected; a container that loads has exactly "
+            "one child per element of its values / bins / data field (nothing dropped or duplicated; "
+            "two SparselyBin keys denoting one index are refused); every document toJson produces is "
+            "accepted (exact instance, C04_round_trip); " + TIE +
             ": the model's accept/reject decision and the loaded content are compared with "
             "Factory.fromJson on valid documents and on single-point mutants at random positions",
-            "rejection of ill-typed field VALUES, malformed list elements and negative entries is "
-            "decided by the correspondence + oracle on generated mutants (the reader model has these "
-            "branches but no closed-form theorem is stated for them)",
+            "rejection of ill-typed field VALUES other than entries and of malformed list elements is "
+            "decided by the correspondence + oracle on generated mutants (incl. numeric-looking strings "
+            "such as '2.5', 'NaN', '-Infinity'); the reader model has these branches but no closed-form "
+            "theorem is stated for them; Categorize is not covered by the one-child-per-element theorem "
+            "(distinctness of Python dict keys is not modelled)",
             "section 6 C15"),
     "C16": ("proof",
             "Coq theorem about the guard as coded (identity list threaded through a pre-order walk): "
             "it raises exactly when some object occupies two fillable positions; a rejected fill "
             "changes nothing; " + TIE + " on trees with a child object installed at a second "
-            "position (siblings, cousins), first and later fills, and unshared controls",
-            "cycles (a node below itself) are probed on the implementation only",
+            "position (siblings, cousins), first and later fills, a new collection built over an "
+            "already filled (checked) tree and one of its inner nodes, and unshared controls",
+            "cycles (a node below itself) are probed on the implementation only; sharing installed by "
+            "attribute assignment after the root was checked is the known finding "
+            "C16-shared-after-checked-fill",
             "section 6 C16"),
     "C17": ("proof",
             "Coq theorems for every arithmetic instance: serializable / cached / named applied in any "
